@@ -272,6 +272,9 @@ def check_rerun(x, N, cfg1, cfg2):
 
 
 def replay(rep):
+    if rep['replay'].get('protocol') == 'values_only':
+        from props import _purity
+        return _purity.replay_protocol(rep['replay'])
     r = rep['replay']
     x = vlib.unhexv(r['x'])
     if not r.get('complex', False):
@@ -554,3 +557,7 @@ def run(ctx):
             bad = [('class_rerun/MultiTapering/raises', 'raised %r' % (e,))]
         for key, what in bad:
             ctx.violation(key, what, {'kind': 'rerun', 'x': vlib.hexv(x), 'complex': cplx, 'cfg1': c1, 'cfg2': c2})
+
+    # ---------------- results depend on the VALUES given only: call protocol (repeat, aliasing, buffer reuse, memory layout, integer / single-precision dtypes)
+    from props import _purity
+    _purity.run_protocol(ctx, ['pmtm_eigen', 'pmtm_adapt'])
